@@ -125,48 +125,48 @@ theorem Triple.quietS {R : St → Prop} (hR : Stable R) (g : St → St) (hg : Qu
   Triple.mod g fun s hI hp => ⟨Inv.congr (hg.sigs s) (hg.ctx s) hI, fun _ hM => Mono.congr_right (hg.sigs s) hM,
     hR.view _ _ (hg.sigs s) hp⟩
 
-/-- `stop(mod, stopping)`: for a module that is not a ZOMBIE (and, when pausing, is in its context) -/
-theorem stopP_triple {R : St → Prop} (hR : Stable R) (m : ModId) (stopping : Bool) :
-    Triple (fun s => R s ∧ ∃ g : Sig, s.sigs[m]? = some g ∧ g.state ≠ .zombie ∧ (stopping = false → g.inCtx = true))
-      (stopP m stopping) (fun _ => R) := by
+/-- `stop(mod, stopping[, leave])`: for a module that is not a ZOMBIE (and, when pausing, is in its context).
+When `leave` is set the module is out of the table afterwards. -/
+theorem stopP_triple {R : St → Prop} (hR : Stable R) (m : ModId) (stopping leave : Bool) :
+    Triple (fun s => R s ∧ ∃ g : Sig, s.sigs[m]? = some g ∧ g.state ≠ .zombie ∧ (stopping = false → g.inCtx = true ∧ leave = false))
+      (stopP m stopping leave) (fun _ s => R s ∧ (leave = true → OutOf m s)) := by
   unfold stopP
-  refine Triple.bind (Q := fun _ s => R s ∧ ∃ g : Sig, s.sigs[m]? = some g ∧ g.state ≠ .zombie ∧ (stopping = false → g.inCtx = true)) ?_ fun _ => ?_
+  refine Triple.bind (Q := fun _ s => R s ∧ ∃ g : Sig, s.sigs[m]? = some g ∧ g.state ≠ .zombie ∧ (stopping = false → g.inCtx = true ∧ leave = false)) ?_ fun _ => ?_
   · exact Triple.mod _ fun s hI hp =>
       have q := quiet_manageSrcsRm m stopping
       ⟨Inv.congr (q.sigs s) (q.ctx s) hI, fun _ hM => Mono.congr_right (q.sigs s) hM, hR.view _ _ (q.sigs s) hp.1,
         by rw [q.sigs s]; exact hp.2⟩
-  refine Triple.bind (Q := fun _ => R) ?_ fun _ => ?_
+  have hS : Stable (fun s => R s ∧ (leave = true → OutOf m s)) :=
+    ⟨fun s s' h hp => ⟨hR.view _ _ h hp.1, fun hl => (Stable.outOf m).view _ _ h (hp.2 hl)⟩,
+     fun s s' h hp => ⟨hR.mono _ _ h hp.1, fun hl => (Stable.outOf m).mono _ _ h (hp.2 hl)⟩⟩
+  refine Triple.bind (Q := fun _ s => R s ∧ (leave = true → OutOf m s)) ?_ fun _ => ?_
   · refine Triple.mod _ fun s hI hp => ?_
     obtain ⟨hr, g, hg, hz, hin⟩ := hp
     have hx : (if stopping = true then MState.stopped else MState.paused) = .stopped ∨
-        ((if stopping = true then MState.stopped else MState.paused) = .paused ∧ g.inCtx = true) := by
+        ((if stopping = true then MState.stopped else MState.paused) = .paused ∧ g.inCtx = true ∧ leave = false) := by
       cases stopping with
       | true => left; rfl
-      | false => right; exact ⟨rfl, hin rfl⟩
-    have hinv := inv_stop s m g _ hI hg hx
-    have hsig : (setState (if stateIs s m .running then s.updCtxId (s.ctxIdOf m) (fun c => { c with running := c.running - 1 }) else s) m
-        (if stopping = true then MState.stopped else MState.paused)).sigs = s.sigs.set m (g.setState (if stopping = true then MState.stopped else MState.paused)) := by
-      rw [setState_sigs]
-      by_cases hrun : stateIs s m .running = true
-      · simp [hrun, hg]
-      · simp [hrun, hg]
-    have hmono : Mono s (setState (if stateIs s m .running then s.updCtxId (s.ctxIdOf m) (fun c => { c with running := c.running - 1 }) else s) m
-        (if stopping = true then MState.stopped else MState.paused)) :=
-      Mono_set s s _ m g _ (Mono.refl s) hg hsig (fun h => h) (fun h => absurd h hz) rfl rfl rfl rfl rfl
-    exact ⟨hinv, fun _ hM => Mono.trans hM hmono, hR.mono _ _ hmono hr⟩
+      | false => right; exact ⟨rfl, (hin rfl).1, (hin rfl).2⟩
+    have hinv := inv_stop s m g _ leave hI hg hx
+    have hsig := stopStep_sigs s m g (if stopping = true then MState.stopped else MState.paused) leave hg
+    have hmono : Mono s (stopStep s m (if stopping = true then MState.stopped else MState.paused) leave) :=
+      Mono_set s s _ m g _ (Mono.refl s) hg hsig (fun h => by cases leave <;> simp [Sig.stopped, h])
+        (fun h => absurd h hz) rfl rfl rfl rfl rfl
+    refine ⟨hinv, fun _ hM => Mono.trans hM hmono, hR.mono _ _ hmono hr, fun hl => ?_⟩
+    have hlt : m < s.sigs.length := (List.getElem?_eq_some_iff.mp hg).1
+    exact ⟨g.stopped (if stopping = true then MState.stopped else MState.paused) leave, by rw [hsig]; simp [hlt], by simp [Sig.stopped, hl]⟩
   refine Triple.bind Triple.get fun s => ?_
-  refine Triple.bind (Q := fun _ => R) ?_ fun ret => ?_
+  refine Triple.bind (Q := fun _ s => R s ∧ (leave = true → OutOf m s)) ?_ fun ret => ?_
   · apply Triple.ite
     · intro _
-      refine Triple.bind (Q := fun _ => R) ?_ fun _ => optionalHook_triple hR _ _ _
-      exact Triple.weaken (Triple.quietS hR _ (quiet_resetModule m)) (fun _ _ h => h.2) (fun _ _ _ h => h)
+      refine Triple.bind (Q := fun _ s => R s ∧ (leave = true → OutOf m s)) ?_ fun _ => optionalHook_triple hS _ _ _
+      exact Triple.weaken (Triple.quietS hS _ (quiet_resetModule m)) (fun _ _ h => h.2) (fun _ _ _ h => h)
     · intro _; exact Triple.retR _ (fun _ h => h.2)
   apply Triple.ite
   · intro _; exact Triple.retR _ (fun _ h => h)
   · intro _
-    refine Triple.bind (Q := fun _ => R) (Triple.quietS hR _ (quiet_tellSystem _ _ _ _)) fun _ => ?_
+    refine Triple.bind (Q := fun _ s => R s ∧ (leave = true → OutOf m s)) (Triple.quietS hS _ (quiet_tellSystem _ _ _ _)) fun _ => ?_
     exact Triple.retR _ (fun _ h => h)
-
 
 theorem sig_of_stateIs (s : St) (m : ModId) (x : MState) (h : stateIs s m x = true) :
     ∃ g : Sig, s.sigs[m]? = some g ∧ g.state = x := by
@@ -225,7 +225,7 @@ theorem startP_triple {R : St → Prop} (hR : Stable R) (m : ModId) (starting : 
       apply Triple.ite
       · intro hrp
         refine Triple.bind (Q := fun _ => R) ?_ fun _ => Triple.retR _ (fun _ h => h)
-        refine Triple.weaken (stopP_triple hR m true) ?_ (fun _ _ _ h => h)
+        refine Triple.weaken (stopP_triple hR m true false) ?_ (fun _ _ _ h => h.1)
         intro st _ ⟨he, hr⟩
         subst he
         obtain ⟨g, hg, hs⟩ := sig_of_isRP _ m hrp
@@ -259,5 +259,69 @@ theorem evaluateP_triple {R : St → Prop} (hR : Stable R) (m : ModId) : Triple 
         rcases hI.out m g hg hin with h | h <;> (rw [hs] at h; cases h)
     · intro _; exact Triple.retR _ (fun _ h => h.2)
   · intro _; exact Triple.retR _ (fun _ h => h.2)
+
+
+/-- `call_pubsub_cb` -/
+theorem callPubsubCb_triple {R : St → Prop} (hR : Stable R) (m : ModId) (evts : List Evt) :
+    Triple R (callPubsubCb m evts) (fun _ => R) := by
+  unfold callPubsubCb
+  apply Triple.ite
+  · intro _; exact Triple.retR _ (fun _ h => h)
+  · intro _
+    refine Triple.bind Triple.get fun s => ?_
+    refine Triple.bind (Q := fun _ => R) ?_ fun _ => ?_
+    · exact Triple.mod _ fun s' hI hp => ⟨Inv.setCurrOf _ _ hI, fun _ hM => Mono.congr_right (by simp) hM,
+        hR.view _ _ (by simp) hp.2⟩
+    refine Triple.bind (Q := fun _ => R) (Triple.callR hR _ _ _) fun _ => ?_
+    refine Triple.bind (Q := fun _ => R) (Triple.quietS hR _ (quiet_updMod m _ (fun md => rfl))) fun _ => ?_
+    refine Triple.bind (Q := fun _ => R) ?_ fun _ => ?_
+    · exact Triple.mod _ fun s' hI hp => ⟨Inv.setCurrOf _ _ hI, fun _ hM => Mono.congr_right (by simp) hM,
+        hR.view _ _ (by simp) hp⟩
+    refine Triple.quietS hR _ ?_
+    apply Quiet.pointwise'
+    intro s'
+    exact ⟨_, quiet_destroyEvts evts (match s'.mods[m]? with | some md => md.stash | none => []), rfl⟩
+
+theorem quiet_pushEvtStore (m : ModId) (e : Evt) : Quiet (fun s => pushEvtStore s m e) := by
+  apply Quiet.pointwise'
+  intro s
+  unfold pushEvtStore
+  by_cases h1 : (srcRole s e != .user) = true
+  · simp only [h1, if_true]
+    by_cases h2 : (srcRole s e == .tbTimer) = true
+    · simp only [h2, if_true]
+      refine ⟨_, quiet_updMod m _ (fun md => ?_), rfl⟩
+      cases md.tb with
+      | none => rfl
+      | some tb => simp only; split <;> rfl
+    · simp only [h2]; exact ⟨_, Quiet.id, rfl⟩
+  · simp only [h1, Bool.false_eq_true, if_false]
+    exact ⟨fun s0 => s0.updMod m (fun md => { md with batch := md.batch ++ [match e.src.bind (fun i => s.srcs[i]?) with
+              | some x => { e with userdata := x.userptr }
+              | none => e] }), quiet_updMod m _ (fun md => rfl), rfl⟩
+
+/-- `push_evt` -/
+theorem pushEvtP_triple {R : St → Prop} (hR : Stable R) (m : ModId) (e : Evt) :
+    Triple R (pushEvtP m e) (fun _ => R) := by
+  unfold pushEvtP
+  refine Triple.bind Triple.get fun s => ?_
+  refine Triple.bind (Q := fun _ => R) ?_ fun _ => ?_
+  · exact Triple.weaken (Triple.quietS hR _ (quiet_pushEvtStore m e)) (fun _ _ h => h.2) (fun _ _ _ h => h)
+  apply Triple.ite
+  · intro _; exact Triple.retR _ (fun _ h => h)
+  · intro _
+    refine Triple.bind Triple.get fun s' => ?_
+    cases hm : s'.mods[m]? with
+    | none => exact Triple.retR _ (fun _ h => h.2)
+    | some md =>
+      simp only
+      apply Triple.ite
+      · intro _; exact Triple.retR _ (fun _ h => h.2)
+      · intro _
+        apply Triple.ite
+        · intro _
+          refine Triple.bind (Q := fun _ => R) ?_ fun _ => callPubsubCb_triple hR _ _
+          exact Triple.weaken (Triple.quietS hR _ (quiet_updMod m _ (fun md => rfl))) (fun _ _ h => h.2) (fun _ _ _ h => h)
+        · intro _; exact Triple.retR _ (fun _ h => h.2)
 
 end Lm.Core
